@@ -33,6 +33,7 @@ namespace pg {
 // ---- payload / error types -----------------------------------------------------------------------------------------
 struct Counters {
   long live = 0, bad = 0, news = 0, deletes = 0;
+  long copies = 0;  // copy constructions / copy assignments of the payload (whoever makes them)
 };
 extern Counters gc;
 
@@ -51,6 +52,7 @@ struct Tracked {
       gc.bad++;
     }
     gc.live++;
+    gc.copies++;
   }
   Tracked(Tracked&& o) noexcept : magic{o.magic}, v{o.v}, moved{o.moved} {
     if (!o.Good()) {
@@ -60,6 +62,7 @@ struct Tracked {
     gc.live++;
   }
   Tracked& operator=(const Tracked& o) noexcept {
+    gc.copies++;
     if (!o.Good() || !Good()) {
       gc.bad++;
     }
